@@ -75,6 +75,7 @@ C1_CLASSES = {
     "rotated-nodelist": "explicit nodelist in another order than G.nodes()",
     "direct": "SIR_pair_based called with 0/1 arrays Y0, X0 and nodelist",
     "attr-weight": "sorted insertion order, the edge attribute holding the transmission weight is called 'weight' (networkx's default name)",
+    "primed-object": "the same Graph object was integrated before while it had another structure (one contact moved) and then edited in place",
 }
 
 
@@ -99,6 +100,10 @@ def c1_call(n, key, seeds, rec, cls, weighted):
         nodelist = list(range(1, n + 1))
     elif cls == "rotated-nodelist":
         nodelist = rotated(n)
+    if cls == "primed-object":
+        from .common import prime_same_object
+        prime_same_object(G, lambda g_: EoN.SIR_pair_based_pure_IC(g_, tau * RATE_UNIT, gam * RATE_UNIT, list(seeds),
+                                                                   initial_recovereds=(list(rec) if rec else None), **kw))
     if cls == "direct":
         Y0 = np.array([1 if u in seeds else 0 for u in nodelist])
         X0 = np.array([0 if (u in seeds or u in rec) else 1 for u in nodelist])
